@@ -171,7 +171,18 @@ func c15DedupSort(p *chk.Prog, r *chk.Report) {
 	adv := rangeVal(f, advLoop)
 	pfx := definedBy(g, "A.Prefix.String()", chk.H("A", adv))
 	appAllowed := f.IsAssignPat("N.ToAdvertise.Allowed.Prefixes", "append(N.ToAdvertise.Allowed.Prefixes, P)", chk.H("P", pfx))
-	routerPfx := f.IsAssignPat("R.prefixes[P]", "P", chk.H("P", pfx))
+	valuePfx := f.IsAssignPat("R.prefixes[P]", "P", chk.H("P", pfx))
+	setIns := isSetInsert(f)
+	// the router's prefixes kept as a map prefix -> prefix, or as a set of prefixes
+	routerPfx := func(n ast.Node) bool {
+		if valuePfx(n) {
+			return true
+		}
+		if as, ok := n.(*ast.AssignStmt); ok && setIns(n) {
+			return f.MatchWith("R.prefixes[P]", as.Lhs[0], chk.H("P", pfx)) != nil
+		}
+		return false
+	}
 	okAllowed := !loopSkipsWithout(g, advLoop, appAllowed, chk.NoGuard) && !loopHasBreak(g, advLoop)
 	okOrig := !loopSkipsWithout(g, advLoop, routerPfx, chk.NoGuard)
 	// the prefixes collected into a list first (one per advertisement, by a helper), then handed on as a whole
